@@ -22,7 +22,7 @@ def main():
         bres = core.build(a.prop, theorems, tier)
     ctx = core.Ctx(a.prop, tier, seed, level=getattr(plug, 'LEVEL', 'proof'))
     try:
-        ctx.model = core.Model(int(a.prop[1:]))
+        ctx.model = core.Model(a.prop)
     except Exception as e:
         bres.failed.append('cannot start extracted model: %r' % e)
     try:
